@@ -190,7 +190,9 @@ def duplicate_return_tails(j, max_blocks=8, max_stmts=24, max_preds=12):
     `self.usage -= len; Some(message)` or `self.last_received = now; payload` after a `match`) is cloned for each predecessor, so that what
     the tail does is again dominated by the arm that leads to it. Purely a CFG normalisation: no path is added or removed."""
     blocks = j["blocks"]
-    for _round in range(6):
+    n0 = len(blocks)
+    for _round in range(40):
+        if len(blocks) > 3 * n0 + 40: break          # growth cap
         preds = {}
         for b in blocks:
             if b.get("cleanup"): continue
@@ -242,8 +244,9 @@ def thread_known_variants(j, max_chain=5):
     locs = j.get("locals") or []
     succs = _succs
     def is_bool(l): return l < len(locs) and (locs[l].get("ty") or {}).get("k") == "bool"
+    pay = {}
     def kill(l, env, denv, alias):
-        env.pop(l, None); denv.pop(l, None); alias.pop(l, None)
+        env.pop(l, None); denv.pop(l, None); alias.pop(l, None); pay.pop(l, None)
         for k_ in [k_ for k_, r_ in alias.items() if r_ == l]: alias.pop(k_, None)
     def learn(l, v, denv, alias):
         denv[l] = v
@@ -258,14 +261,29 @@ def thread_known_variants(j, max_chain=5):
         l = st["place"]["local"]; rv = st["rv"]
         src = rv["op"]["place"]["local"] if rv["k"] == "use" and rv["op"]["k"] in ("copy", "move") and not rv["op"]["place"]["proj"] else None
         sv_e = env.get(src) if src is not None else None; sv_d = denv.get(src) if src is not None else None; sroot = alias.get(src, src) if src is not None else None
+        sv_p = pay.get(src) if src is not None else None
         kill(l, env, denv, alias)
         if rv["k"] in ("ref", "rawptr") and not rv["place"]["proj"] and rv["place"]["local"] in env: env[l] = env[rv["place"]["local"]]   # &x of a known variant
-        if rv["k"] == "aggr" and rv.get("vname") in _VARIANT_INDEX and (rv.get("path") or "").split("::")[-1] in ("Result", "Option", "ControlFlow"): env[l] = rv["vname"]
+        if rv["k"] == "aggr" and rv.get("vname") in _VARIANT_INDEX and (rv.get("path") or "").split("::")[-1] in ("Result", "Option", "ControlFlow"):
+            env[l] = rv["vname"]
+            # remember what the payload is, when it is itself a tracked value (`Some(Admission::Slot(i))`)
+            f0 = rv["fields"][0] if rv.get("fields") else None
+            if f0 is not None and f0["k"] in ("copy", "move") and not f0["place"]["proj"] and f0["place"]["local"] in env: pay[l] = env[f0["place"]["local"]]
+        elif rv["k"] == "aggr" and rv.get("ak") == "adt" and isinstance(rv.get("variant"), int) and rv.get("vname") and (rv.get("path") or "").split("::")[0] in ("renet", "renetcode", "renet_netcode"):
+            env[l] = "#%d" % rv["variant"]          # a variant of one of the workspace's own enums, by index
         elif src is not None:
             if sv_e is not None: env[l] = sv_e
             if sv_d is not None: denv[l] = sv_d
+            if sv_p is not None: pay[l] = sv_p
             if sroot != l: alias[l] = sroot
-        elif rv["k"] == "discr" and not rv["place"]["proj"] and rv["place"]["local"] in env: denv[l] = _VARIANT_INDEX[env[rv["place"]["local"]]]
+        elif rv["k"] == "discr" and not rv["place"]["proj"] and rv["place"]["local"] in env:
+            ev_ = env[rv["place"]["local"]]
+            denv[l] = int(ev_[1:]) if ev_.startswith("#") else _VARIANT_INDEX[ev_]
+        elif rv["k"] == "discr" and len(rv["place"]["proj"]) == 2 and rv["place"]["proj"][0]["k"] == "downcast" and rv["place"]["proj"][1]["k"] == "field" and rv["place"]["local"] in pay:
+            ev_ = pay[rv["place"]["local"]]           # discriminant of the payload: `match opt { Some(Admission::Slot(i)) => .. }`
+            denv[l] = int(ev_[1:]) if ev_.startswith("#") else _VARIANT_INDEX[ev_]
+        elif rv["k"] == "use" and rv["op"]["k"] in ("copy", "move") and len(rv["op"]["place"]["proj"]) == 2 and rv["op"]["place"]["proj"][0]["k"] == "downcast" and rv["op"]["place"]["proj"][1]["k"] == "field" and rv["op"]["place"]["local"] in pay:
+            env[l] = pay[rv["op"]["place"]["local"]]   # the payload moved out: `let Some(x) = opt`
         elif rv["k"] == "use" and rv["op"]["k"] == "const" and isinstance(rv["op"].get("val"), int) and (rv["op"].get("ty") or {}).get("k") == "bool": denv[l] = rv["op"]["val"]
         elif rv["k"] == "un" and rv.get("op") == "Not" and rv["a"]["k"] in ("copy", "move") and not rv["a"]["place"]["proj"] and rv["a"]["place"]["local"] in denv and denv[rv["a"]["place"]["local"]] in (0, 1): denv[l] = 1 - denv[rv["a"]["place"]["local"]]
     def step_term(cb, env, denv, alias):
@@ -277,6 +295,7 @@ def thread_known_variants(j, max_chain=5):
             a0 = tm["args"][0] if tm["args"] else None
             if nm.endswith("Try>::branch") and a0 and a0["k"] in ("copy", "move") and not a0["place"]["proj"] and a0["place"]["local"] in env and d is not None:
                 env[d] = _BRANCH[env[a0["place"]["local"]]]
+                if a0["place"]["local"] in pay: pay[d] = pay[a0["place"]["local"]]
             elif nm.rsplit("::", 1)[-1] in ("is_none", "is_some") and "Option" in nm and a0 and a0["k"] in ("copy", "move") and not a0["place"]["proj"] and a0["place"]["local"] in env and d is not None:
                 v_ = env[a0["place"]["local"]]
                 if v_ in ("Some", "None"): denv[d] = int((v_ == "None") == nm.endswith("is_none"))
@@ -311,6 +330,7 @@ def thread_known_variants(j, max_chain=5):
                 if len(ps) != 1 or ps[0] in path: break
                 path.insert(0, ps[0]); cur = ps[0]
             env, denv, alias = {}, {}, {}
+            pay.clear()
             for a, b_ in zip(path, path[1:]):
                 q = blocks[a]
                 for st in q["stmts"]: step_stmt(st, env, denv, alias)
